@@ -1,6 +1,6 @@
 """Registry: which stages decide which property (see DESIGN.md section 5)."""
 from checklib import PROPS, make_prop, ES, GS, tlc_only_stage, refstore_stage, session_stage, long_session_stage, short_strings_stage
-from tracestages import TE, api_stage, api_cases_stage
+from tracestages import TE, TL, api_stage, api_cases_stage
 
 COMMON_ASSUME = [
     "the TLA+ transcription of RFC 9535 (spec/JPSemantics.tla) is faithful; anchored by the RFC's example tables as ASSUMEs (spec/RFCExamples.tla), reproduced from memory",
@@ -37,11 +37,11 @@ def tlaps_stage(ev, tier, seed):
 
 
 NT = "non-trivial = the specification's nodelist is non-empty; distinct = distinct REPLAY lines"
-PROPS["C01"] = make_prop("C01", [ES("C01", "C01", "nodes"), ES("C01", "C11", "nodes"), ES("C01", "C05", "nodes"), ES("C01", "C01D", "nodes"), ES("C01", "C03", "nodes"), GS("C01", "C13", "nodes"), TE("C01", {"nodes", "outcome", "seg"})],
+PROPS["C01"] = make_prop("C01", [ES("C01", "C01", "nodes"), ES("C01", "C11", "nodes"), ES("C01", "C05", "nodes"), ES("C01", "C01D", "nodes"), ES("C01", "C03", "nodes"), GS("C01", "C13", "nodes"), TE("C01", {"nodes", "outcome", "seg"}), TL("C01", {"nodes", "outcome"})],
     "every (document, query) pair of universe C01 (strided by seed) driven through the evaluation machine; " + NT, COMMON_ASSUME)
-PROPS["C02"] = make_prop("C02", [ES("C02", "C01", "order"), ES("C02", "C11", "order"), ES("C02", "C15", "order"), ES("C02", "C01D", "order"), TE("C02", {"order"})],
+PROPS["C02"] = make_prop("C02", [ES("C02", "C01", "order"), ES("C02", "C11", "order"), ES("C02", "C15", "order"), ES("C02", "C01D", "order"), TE("C02", {"order"}), TL("C02", {"order"})],
     "as C01 but the result SEQUENCE is compared; " + NT, COMMON_ASSUME)
-PROPS["C03"] = make_prop("C03", [ES("C03", "C03", "paths"), ES("C03", "C11", "paths", mode="paths"), ES("C03", "C01", "paths", mode="paths"), TE("C03", {"paths"})],
+PROPS["C03"] = make_prop("C03", [ES("C03", "C03", "paths"), ES("C03", "C11", "paths", mode="paths"), ES("C03", "C01", "paths", mode="paths"), TE("C03", {"paths"}), TL("C03", {"paths"})],
     "member names over a hostile alphabet reached through every route kind; each result's path compared with the spec's NormalizedPath of the node found by address, equal-paths<=>same-node, and re-query of the reported path; " + NT, COMMON_ASSUME)
 PROPS["C04"] = make_prop("C04", [ES("C04", "C04", "nodes"), ES("C04", "C15", "nodes"), TE("C04", {"cmp"})],
     "all pairs of operand values x 6 operators x operand forms embedded as $[?lhs op rhs]; the child is selected iff the spec's Compare is true; " + NT, COMMON_ASSUME)
